@@ -467,8 +467,30 @@ std::string gen(Rng &r, const Args &a) {
       Q.push_back("(lb " + X + " " + std::to_string(-A + r.range(-1, 1)) + ")");
     }
   }
+  // "tightening" gadget (relational kinds, >= 4 variables; ORDERED: the last constraint must come last): existing slack
+  // relation  de - ii <= K  with a predecessor  ii - se <= c0  and  de - jj <= k1 ; then  jj - ii <= c2  with
+  // c2 + k1 < K  tightens de - ii through jj, and the closure must propagate that to the predecessors of ii
+  // (de - se <= c0 + c2 + k1) although the edge ii -> de is not new
+  bool ordered = false;
+  if (Q.empty() && kind != "itv" && nv >= 4 && r.below(4) == 0) {
+    std::vector<unsigned> perm;
+    for (unsigned i = 0; i < nv; i++) perm.push_back(i);
+    for (unsigned i = nv - 1; i > 0; i--) std::swap(perm[i], perm[r.below(i + 1)]);
+    auto V = [&](unsigned i) { return "v" + std::to_string(perm[i]); };
+    int64_t c0 = r.range(-3, 3) * g.scale, k1 = r.range(-3, 3) * g.scale, c2 = r.range(-3, 3) * g.scale, K = c2 + k1 + r.range(1, 9) * g.scale;
+    std::vector<std::string> pre;
+    pre.push_back("(diff " + V(1) + " " + V(0) + " " + std::to_string(c0) + ")");   // ii - se <= c0
+    pre.push_back("(diff " + V(3) + " " + V(1) + " " + std::to_string(K) + ")");    // de - ii <= K
+    pre.push_back("(diff " + V(3) + " " + V(2) + " " + std::to_string(k1) + ")");   // de - jj <= k1
+    if (nv >= 5 && r.coin()) pre.push_back("(diff " + V(1) + " " + V(4) + " " + std::to_string(r.range(-3, 3) * g.scale) + ")"); // a second predecessor
+    for (size_t i = pre.size(); i > 1; i--) std::swap(pre[i - 1], pre[r.below(i)]);
+    Q.push_back("(diff " + V(2) + " " + V(1) + " " + std::to_string(c2) + ")");     // jj - ii <= c2   (added last)
+    for (auto &c : pre) Q.push_back(c);
+    ordered = true;
+  }
   // shuffle the gadget
-  for (size_t i = Q.size(); i > 1; i--) std::swap(Q[i - 1], Q[r.below(i)]);
+  if (!ordered)
+    for (size_t i = Q.size(); i > 1; i--) std::swap(Q[i - 1], Q[r.below(i)]);
   unsigned gadget_slot = r.below(NP);
   unsigned len = 5 + r.below(thorough ? 36 : 16);
   o << " (ops";
